@@ -8,6 +8,27 @@ CHECKS = {
  "C01": dict(cat="proof", tech="abstract interpretation of THIR: panic-freedom obligations under type invariants, loop ranking, iterator typestate",
    text="Every partial operation (index, slice range, arithmetic overflow, unwrap/expect, explicit panic, std preconditions) reachable from the 16 parsing entry points on an arbitrary byte string, and from every public method/conversion/iterator on every value they can return, is an obligation discharged for all inputs under the facts of the constructing path (type invariant); every loop gets a ranking argument; every stateful iterator an inductive state invariant (Houdini) and a lexicographic progress measure bounded by the input length; Compound::next is justified by recurrence agreement with the validation loop of Compound::parse.",
    note=TB + "allocation failure/stack exhaustion out of scope; documented-panic exemption only for methods with a '# Panic' doc section called directly.", ref="§4 C01"),
+ "C02": dict(cat="translation_validation", tech="composition of function summaries: the SR/RR parser and accessors interpreted over the builder's abstract write log; entailment of field equality",
+   text="The SR/RR parser and every accessor are interpreted over the write log of the SR/RR builder under SIZE = Ok(n), for all field values, block counts and paddings: every rejecting path is refuted; ssrc, NTP/RTP timestamps, packet/octet counts, padding and n_reports are entailed equal to the configured values; report block k read == report block k written for a symbolic k (fraction/cumulative overlay resolved last-writer-wins, the 24-bit mask shown lossless under the builder's own limit), and as many blocks are read as were added.",
+   note=TB + "nothing is executed; the store is abstract (symbolic regions, per-element contents).", ref="§4 C02"),
+ "C03": dict(cat="translation_validation", tech="per-iteration hypotheses by summary composition (item writer vs item parser), layout rows and tokeniser rules for chunk and packet; induction on paper",
+   text="(a) SdesItem::parse interpreted over the item builder's write log followed by at least one more byte accepts, consumes exactly the written size and recovers type, value and PRIV prefix for all lengths incl. empty; (b) chunk writer layout (SSRC, contiguous items, non-empty zero run to the 32-bit boundary) and the chunk parser's advance = pad4(t+1); (c) packet layout (chunks contiguous from 4, count, trailer) and the walk ending at len - padding. The whole-packet round trip follows from (a)-(c) by induction over items and chunks (paper argument in DESIGN.md).",
+   note=TB + "the induction itself is not mechanised. Open finding D11 (SDES packets above 65536 words) is reported as KNOWN-FINDING.", ref="§4 C03"),
+ "C04": dict(cat="translation_validation", tech="composition of function summaries: BYE/APP parser and accessors interpreted over the builder's abstract write log",
+   text="For symbolic numbers of sources, reason length, payload length, name length and padding: every rejecting parser path is refuted on the builder's output; sources (count and element k), reason bytes (None iff no reason), subtype, name zero-filled to 4 bytes, payload bytes and padding are entailed equal to the configured values.",
+   note=TB + "Open finding D11 (APP above 65536 words is accepted by the builder and then rejected by the parser) is reported as KNOWN-FINDING.", ref="§4 C04"),
+ "C05": dict(cat="translation_validation", tech="summary composition under the FCI trait contract (packet level) and per FCI codec (iterator transition tables over the write log); step-relation extraction for the NACK encoder",
+   text="Packet level (any FCI obeying the trait contract): acceptance, sender/media SSRC, FMT = format(), padding, and the FCI parser receives exactly the member's image [12, 12+size). FCI level: FIR entry i read == map entry i written and iteration ends after the last entry; SLI entry k decoded == entry k encoded for fields within 13/13/6 bits; RPSI payload type, bit count and whole bytes; PLI empty. NACK: the encoder's step relation (bit d-1 for distance d in 1..=16, new word beyond 16) is extracted and agrees with the decoder's (C15) and the RFC window.",
+   note=TB + "Not decided: NACK decoded set == requested set for every set; the partially used last RPSI byte. Open finding D11 reported as KNOWN-FINDING.", ref="§4 C05"),
+ "C10": dict(cat="proof", tech="path-condition entailment on the SDES item/chunk/packet parsers with inferred loop invariants (Houdini), exact-tiling ghost facts for the item list, fold summarisation",
+   text="For all inputs: every accepted item is the view [q, q+2+len) inside the input and a PRIV item holds its prefix; accessors follow RFC 3550 §6.5; the items yielded are consecutive views from byte 4; the zero skip steps only over zero bytes and the chunk's consumed length is exactly pad4(t+1) for the terminator position t; the chunk walk ends exactly at len - padding; SdesChunk::length() equals the consumed length of a terminated chunk.",
+   note=TB + "Not decided: acceptance of every RFC-well-formed SDES packet (covered for builder output by C03).", ref="§4 C10"),
+ "C15": dict(cat="proof", tech="gating by path-condition entailment with FCI parsers uninterpreted; iterator typestate: transition tables of next() under Houdini invariants compared with RFC rows",
+   text="parse_fci::<F> reaches F::parse only for the RFC's (kind, FMT) of F, with exactly [12, len - padding), and otherwise fails with WrongImplementation; FIR and SLI iterators decode one whole entry per step at the current offset (BE32 SSRC + sequence; 13/13/6 bit fields) and stop only when no whole entry remains; RPSI payload type / bit string / ignored bits; PLI accepts only an empty body; NACK: PID first, then PID+j (mod 2^16) only for a tested set bit j-1 of BLP with j in 1..=16, next word after bit 16.",
+   note=TB + "Not decided: that the NACK bit scan never skips a set bit (quantified loop invariant; argued in DESIGN.md).", ref="§4 C15"),
+ "C19": dict(cat="other", tech="parametric summaries of the public helpers (symbolic P::MIN_PACKET_LEN / P::PACKET_TYPE); unknown-builder summaries; compile-only witness crate (thorough)",
+   text="Proof-style check with one recorded open finding: check_packet::<P> is shown, for a symbolic packet type P, to accept exactly the well-framed strings of P; write_header_unchecked::<P>, write_padding_unchecked, check_padding and the header readers satisfy their RFC contracts for all arguments; the unknown builder satisfies the C06 and C07 rules (size, obligations, layout) except the total-size limit (D11, KNOWN-FINDING); the thorough tier type-checks a witness crate of three third-party packet types (different type numbers and minimum lengths, embedded in a compound, converted back through try_as) against /repo's current tree.",
+   note=TB + "assumes third-party types declare MIN_PACKET_LEN >= 4.", ref="§4 C19"),
  "C06": dict(cat="proof", tech="abstract interpretation of size calculators and writers (loop closed forms, prefix sums, write log); entailment of return value == announced size; trait-contract assume/guarantee for dyn members",
    text="For all 18 builders (10 packet-level incl. the PacketBuilder enum and the compound builder, 5 FCI, SDES chunk/item, report block) SIZE and WRITE summaries are computed for all configurations; under SIZE = Ok(n) and a buffer of n bytes every writer obligation (bounds, slice ranges, copy lengths, arithmetic, asserts) is discharged, the returned value is entailed equal to n and n is a whole number of words; the three write_into wrappers are shown to return the size error unchanged, OutputTooSmall(n) exactly when len < n, and otherwise the unchecked write into exactly buf[..n]; compound members and FCI builders behind `dyn` obey a stated trait contract which every impl in the crate is verified against (so all feedback x FCI pairings and compounds of arbitrary members are covered compositionally).",
    note=TB + "contract clauses for third-party trait objects: size is the same on every call, FCI size is a multiple of 4, format() <= 31.", ref="§4 C06"),
